@@ -240,7 +240,7 @@ type frame struct {
 type access struct {
 	op      string // read | write
 	atomic  bool
-	gor     string  // "goroutine 17" / "main goroutine"
+	gor     string // "goroutine 17" / "main goroutine"
 	frames  []frame
 	created []frame // where that goroutine was started
 }
